@@ -162,7 +162,7 @@ def hyp_run(rec, strategy, oracle, max_examples, seed, shrink=True, max_buckets=
     excluded = set()
     phases = [Phase.generate] + ([Phase.shrink] if shrink else [])
     for _ in range(max_buckets):
-        state = {'t0': None, 'last': None}
+        state = {'t0': None, 'last': None, 'failing': {}}
 
         @hypothesis.seed(seed)
         @settings(max_examples=max_examples, database=None, deadline=None,
@@ -173,7 +173,12 @@ def hyp_run(rec, strategy, oracle, max_examples, seed, shrink=True, max_buckets=
         @given(strategy)
         def test(case):
             if state['t0'] is not None and time.time() - state['t0'] > shrink_budget_s:
-                return  # stop shrinking: report the best found so far
+                # stop shrinking: anything not already known to fail is treated as
+                # passing, so Hypothesis settles on the best failure found so far
+                known = state['failing'].get(digest(case))
+                if known is not None:
+                    raise known
+                return
             try:
                 oracle(case)
             except Violation as v:
@@ -187,6 +192,7 @@ def hyp_run(rec, strategy, oracle, max_examples, seed, shrink=True, max_buckets=
                 if state['t0'] is None:
                     state['t0'] = time.time()
                 state['last'] = v
+                state['failing'][digest(case)] = v
                 raise
 
         try:
@@ -195,6 +201,16 @@ def hyp_run(rec, strategy, oracle, max_examples, seed, shrink=True, max_buckets=
             v = state['last'] or v
             rec.violation(v)
             excluded.add(v.sig)
+            continue
+        except hypothesis.errors.Flaky:
+            # the oracle gave different answers for the same case: report the
+            # recorded failure, marked as unreliable
+            v = state['last']
+            if v is None:
+                raise
+            v.sig = 'flaky:' + v.sig
+            rec.violation(v)
+            excluded.add(v.sig[6:])
             continue
         break
 
@@ -263,6 +279,8 @@ def main(argv=None):
     ap.add_argument('--no-evidence', action='store_true')
     ns = ap.parse_args(argv)
     prop = ns.property.upper()
+    if ns.replay:
+        ns.replay = os.path.abspath(ns.replay)
     try:
         seed = int(os.environ.get('VERIF_SEED', '1') or '1')
     except ValueError:
